@@ -10,6 +10,13 @@ VERSIONS = ["3.6", "3.7", "3.8", "3.9", "3.10", "3.11", "3.12", "3.13"]
 BOUNDS = [2 ** 8 - 1, 2 ** 8, 2 ** 8 + 1, 2 ** 16 - 1, 2 ** 16, 2 ** 16 + 1, 2 ** 24 - 1, 2 ** 24, 2 ** 24 + 1, 2 ** 30 - 1]
 
 
+FAMILY_VERSIONS = ["3.0", "3.1", "3.2", "3.3", "3.4", "3.5"]
+# same name, other meaning than in 3.6: MAKE_FUNCTION (flags instead of counts since 3.6), EXTENDED_ARG; BUILD_MAP took a
+# size hint up to 3.4; 3.0 / 3.1 had the 2.6-style LIST_APPEND / SET_ADD and (per xdis's tables, undecided here) IMPORT_NAME
+FAMILY_CHANGED = {"*": ("MAKE_FUNCTION", "EXTENDED_ARG"), "3.4": ("BUILD_MAP",), "3.3": ("BUILD_MAP",), "3.2": ("BUILD_MAP",),
+                  "3.1": ("BUILD_MAP", "IMPORT_NAME"), "3.0": ("BUILD_MAP", "IMPORT_NAME", "LIST_APPEND", "SET_ADD")}
+
+
 class C15:
     id = "C15"
     rule = ("enumerated per version 3.6-3.13: every opcode number 0..255 and every pseudo-instruction number >= 256 the version's opmap lists x operands {0..1024} (quick) / {0..65535} "
@@ -63,10 +70,16 @@ class C15:
         for h in HOSTS:
             for v in VERSIONS:
                 yield {"t": "host", "v": v, "host": h, "op": 0}
+        # 3.0-3.5 have no interpreter here: an opcode that keeps its NAME up to 3.6 keeps its stack effect (the few
+        # whose meaning changed are listed), so CPython 3.6 decides those
+        for v in FAMILY_VERSIONS:
+            yield {"t": "family", "v": v, "op": 0}
 
     def judge(self, case, ctx):
         res = Result()
         v, op = case.get("v"), case.get("op")
+        if case.get("t") == "family" and v in FAMILY_VERSIONS:
+            return self.judge_family(case, ctx, res)
         if v not in VERSIONS or not isinstance(op, int) or not (0 <= op < 512):
             res.reject = "malformed-case"
             return res
@@ -76,6 +89,8 @@ class C15:
         w = ctx.pool.ref(v)
         if t == "host":
             return self.judge_host(case, ctx, res)
+        if t == "family":
+            return self.judge_family(case, ctx, res)
         if t == "range":
             lo, hi = case["lo"], case["hi"]
             r = w.call("stack_effect", ranges=[[op, lo, hi]], pairs=[[op, None]])
@@ -147,6 +162,39 @@ class C15:
                           "accepted_by_cpython": n}
         return res
 
+
+    def judge_family(self, case, ctx, res):
+        v = case["v"]
+        vt = tuple(int(p) for p in v.split("."))
+        opc = self.x.disasm.get_opcode(vt, False)
+        ref = ctx.pool.ref("3.6")
+        t36 = ref.call("opcode_tables")
+        xse = self.x.cross_dis.xstack_effect
+        args = list(range(0, 300)) + [511, 512, 0x101, 0x203, 0xFFFF, 0x10001]
+        n = 0
+        keys = []
+        for name, num in sorted(opc.opmap.items()):
+            if name.startswith("<") or name not in t36["opmap"] or name in FAMILY_CHANGED.get("*", ()) or name in FAMILY_CHANGED.get(v, ()):
+                continue
+            exps = ref.call("stack_effect", ranges=[], pairs=[[t36["opmap"][name], a] for a in args])["pairs"]
+            for a, exp in zip(args, exps):
+                if exp is None:
+                    continue
+                n += 1
+                try:
+                    got = xse(num, opc, a)
+                except Exception as e:
+                    got = "raised %s" % type(e).__name__
+                if got != exp:
+                    res.fail("C15|%s|%s|family-3.6" % (v, name), "%s %s operand %d: xstack_effect %s; CPython 3.6, where the opcode has the same name and meaning, says %s" % (
+                        v, name, a, got, exp))
+                    break
+            keys.append([v, name])
+        res.evals = max(1, n)
+        res.nt_keys = keys
+        res.classes = ["version:" + v, "kind:family-3.6"]
+        res.sample = {"version": v, "oracle": "CPython 3.6 dis.stack_effect for same-named opcodes", "opcodes": len(keys)}
+        return res
 
     def judge_host(self, case, ctx, res):
         """the library runs on several Python versions: the same (opcode, operand) gives the same effect on each"""
